@@ -1541,6 +1541,7 @@ class Interp:
             if isinstance(a, TD):
                 self.emit("td-escape", n, (a, f"{show(base, 2)}.{name}"))
         res = mk("meth", base, name, *args, tag=self.site(n))
+        self.emit("methcall", n, (base, name, tuple(args), res))
         if name.endswith("_") and not name.startswith("__") and name not in INPLACE_OK:
             # in-place tensor op: every holder of the old value now holds the new one
             if self.nograd_depth:
